@@ -704,7 +704,10 @@ func (w *Walker) tableCall(call *ast.CallExpr, fun ast.Expr, st *State, nres int
 			w.undecided(call, "dispatch table entry is not a module function")
 			continue
 		}
+		saved := w.viaValue
+		w.viaValue = true
 		out = append(out, w.callInternalShift(call, target, ft.st, nres, methodExpr)...)
+		w.viaValue = saved
 	}
 	return out, true
 }
@@ -980,7 +983,7 @@ func (w *Walker) callInternalFull(call *ast.CallExpr, fn *FuncInfo, st *State, n
 			out = append(out, callRes{s, w.pureResult(call, fn, recvs[i], args[i], s, nres)})
 			continue
 		}
-		if w.inlineHelpers && w.A.inlinable(fn) {
+		if w.inlineHelpers && (w.A.inlinable(fn) || w.viaValue && w.A.inlinableValue(fn)) {
 			if rs, ok := w.inlineCall(fn, recvs[i], args[i], s, nres, false); ok {
 				out = append(out, rs...)
 				continue
